@@ -6,6 +6,9 @@
             proven model allows (a target pid is compared by MEMBERSHIP in the model's
             candidate set: for a name carried by services of several types the Go directory
             keeps whichever type its map iteration visits first)
+            for an OCalls (calls in flight together, run under the schedule the op carries)
+            additionally: what every rule invocation of every call was handed, read and got
+            back from its nested calls is EXACTLY what the model computes for that call alone
    monitor  the property itself (Spec.op_ok_b: history functions + property vocabulary),
             evaluated on the implementation's own trace *)
 From Cell2V Require Import Common.Tac Common.ListX Common.AList C07.Model C07.Spec.
@@ -13,7 +16,7 @@ From Cell2V Require Import Common.Tac Common.ListX Common.AList C07.Model C07.Sp
 Definition sop := op script.
 Definition case := (list sop * list obs)%type.
 
-Definition run_s (ops : list sop) : list mout := run interp_script ops.
+Definition run_s (ops : list sop) : list mout := run interp_script prog_of_script ops.
 
 Definition agree (c : case) : bool := admits_all (run_s (fst c)) (snd c).
 
